@@ -62,7 +62,7 @@ def run(ctx):
         lambda: ctx.dump_graph("OneShot", "OneShotGenRef.cfg"),
         lambda: ctx.go_build("internal/cache", name="c57cache", only=only),
         lambda: ctx.go_build("internal/grpcsync", name="c57sync", only=only),
-    ], workers=6)
+    ])
     g1, g2, g3, g4, bcache, bsync = res[5:]
     g1 = sp.behaviours(ctx, g1, step_of_cache, cache1, "cache")
     g2 = sp.behaviours(ctx, g2, step_of_cache, cache2, "cache-silent")
@@ -70,7 +70,7 @@ def run(ctx):
     g4 = sp.behaviours(ctx, g4, step_of_sync, ref, "refcounted", limit=ctx.pick(900, None))
 
     # (b)+(c) every transition of the bounded scopes forced onto real goroutines; (d) stress
-    rounds = ctx.pick(200, 2500)
+    rounds = ctx.pick(200, 5000)
     parts = sp.parallel([
         lambda: sp.replay(ctx, bcache, "TestVerifC57CacheReplay", g1),
         lambda: sp.replay(ctx, bcache, "TestVerifC57CacheReplay", g2),
